@@ -378,9 +378,9 @@ func main() {
 		mutate(filepath.Base(f), b, len(b) <= 2048 || *tier == "thorough", false, emit)
 	}
 	mutate("synthetic", []byte(synthetic), true, true, emit)
-	maxTok := 4
+	maxTok := 5
 	if *tier == "thorough" {
-		maxTok = 5
+		maxTok = 6
 	}
 	tokenSeqs(maxTok, emit)
 	rawBytes(*tier, emit)
